@@ -395,18 +395,30 @@ fn main() {
       }
     }
     // ---- replays after a commit that adds a segment, then after a compaction
-    let extra: Vec<Value> = (0..2 + rng.below(3)).map(|_| qx::gen_doc_fields(&mut rng)).collect();
-    w.commit_batch(&extra);
-    let gen1 = w.generation();
-    assert!(gen1 != gen0, "a commit with new documents keeps the generation");
-    let reader1 = w.reader();
+    // (half of the multi-segment worlds compact directly, without the commit in between: the
+    // generation a cursor is checked against must change on every path, whatever mix of new
+    // segments and vanished tombstones a history produces)
+    let direct = nseg >= 2 && rng.chance(1, 2);
+    let (gen1, reader1) = if direct {
+      bump(&mut dist, "worlds_compacted_directly", 1);
+      (gen0, w.reader())
+    } else {
+      let extra: Vec<Value> = (0..2 + rng.below(3)).map(|_| qx::gen_doc_fields(&mut rng)).collect();
+      w.commit_batch(&extra);
+      let g = w.generation();
+      assert!(g != gen0, "a commit with new documents keeps the generation");
+      (g, w.reader())
+    };
     w.index.compact().expect("compact");
     let gen2 = w.generation();
-    assert!(gen2 != gen1 && gen2 != gen0, "compaction keeps the generation");
+    assert!(gen2 != gen0 && (direct || gen2 != gen1), "compaction keeps the generation");
     let reader2 = w.reader();
     for case in cases[first_case..].iter_mut() {
       let Some((cur, page2)) = case.first_cursor.clone() else { continue };
       for (kind, rd, g) in [("after_commit", &reader1, gen1), ("after_compaction", &reader2, gen2)] {
+        if direct && kind == "after_commit" {
+          continue;
+        }
         let mut r = case.req.clone();
         r["limit"] = json!(case.limit);
         r["cursor"] = json!(cur);
